@@ -4,7 +4,7 @@ import string
 
 from .. import legacy, tablechecks
 from ..cfg import CFG
-from ..report import AnalysisError, norm
+from ..report import borrow, AnalysisError, norm
 from ..srcmodel import own_nodes
 from ..terms import Resolver, alternatives, show, walk
 
@@ -32,6 +32,13 @@ def run(rep, ctx):
     rep.run_rule("C19.R3", "Scalar.__repr__ agrees with the (value, unit, category) constructor form; names are quote-free (exhaustive)", r3_repr, ctx)
     from . import c07
     from ..report import borrow
+    from . import c11
+    rep.rule("C19.R5", "every FixedArray construction form reaches the same gate: dimension >= 2 and len(values) == dimension (shared with C11.R1 / C11.R2)")
+    try:
+        borrow(rep, c11.r1_gate, ctx, "C11.R1", "C19.R5")
+        borrow(rep, c11.r2_routes, ctx, "C11.R2", "C19.R5")
+    except AnalysisError as e:
+        rep.error("C19.R5", str(e))
     rep.rule("C19.R4", "the intern table answers a category-less request only with the object of the unit's default category (shared with C07.R5: keys are made of the request's own components)")
     try:
         borrow(rep, c07.r5_interning, ctx, "C07.R5", "C19.R4")
